@@ -77,6 +77,30 @@ if [ "${VERIF_SKIP_ASAN:-0}" != 1 ]; then
   fi
 fi
 
+# ---------------- debug profile (debug assertions of deku / bitvec / std on): release vs debug can flip verdicts
+if [ "${VERIF_SKIP_DEBUG:-0}" != 1 ]; then
+  if ( cd "$HW" && cargo build --offline -p vsan --target-dir "$H/target-dbg$SUF" ) > "$W/dbg-build.log" 2>&1; then
+    BIN="$H/target-dbg$SUF/debug/vsan"
+    for s in $(seq 0 $((N-1))); do
+      timeout 3600 "$BIN" "$MODE" "$SEED" "$s" "$N" 40 > "$W/dbg-$s.log" 2>&1 &
+    done
+    wait
+    for s in $(seq 0 $((N-1))); do
+      if grep -q "panicked at" "$W/dbg-$s.log"; then
+        cp "$W/dbg-$s.log" "$OUT/replay/$ID/debug-$s.log"; echo "VIOLATION property=C01 replay=$OUT/replay/$ID/debug-$s.log"; echo "  signature: C01|panic_in_debug_profile|$(grep -m1 -o 'panicked at [^ ]*' "$W/dbg-$s.log")"; [ "$ID" = C01 ] && rc_all=1
+      elif grep -q "MISMATCH" "$W/dbg-$s.log"; then
+        cp "$W/dbg-$s.log" "$OUT/replay/$ID/debug-$s.log"; echo "VIOLATION property=$ID replay=$OUT/replay/$ID/debug-$s.log"; echo "  signature: $ID|reader_differs_from_slice|debug_profile"; rc_all=1
+      elif grep -q "^vsan mode=" "$W/dbg-$s.log"; then
+        grep "^vsan mode=" "$W/dbg-$s.log" | sed 's/^/debug: /' >> "$W/summary.txt"
+      else
+        note "INCONCLUSIVE property=$ID debug-profile shard $s did not finish (see $W/dbg-$s.log)"
+      fi
+    done
+  else
+    note "INCONCLUSIVE property=$ID the debug-profile build failed (see $W/dbg-build.log)"
+  fi
+fi
+
 # ---------------- valgrind memcheck on the plain release build
 if [ "${VERIF_SKIP_VALGRIND:-0}" != 1 ] && command -v valgrind >/dev/null; then
   BIN="$TGT/release/vsan"
@@ -106,7 +130,7 @@ tot = {}
 inconc = []
 try:
     for l in open(summ):
-        m = re.match(r"(miri|asan|memcheck): vsan .*decodes_ok=(\d+) decodes_err=(\d+) operations=(\d+) mismatches=(\d+)", l)
+        m = re.match(r"(miri|asan|memcheck|debug): vsan .*decodes_ok=(\d+) decodes_err=(\d+) operations=(\d+) mismatches=(\d+)", l)
         if m:
             t = tot.setdefault(m.group(1), {"shards": 0, "decodes_ok": 0, "decodes_err": 0, "operations": 0, "mismatches": 0})
             t["shards"] += 1
